@@ -84,6 +84,26 @@ func c13Plain(src string) (printed string, out string, errs []string) {
 	return printed, out, errs
 }
 
+// c13Session feeds the inputs one after the other to one interpreter state through repl.EvalOne and returns what the
+// programs printed (errors included).
+func c13Session(inputs []string) string {
+	s := eval.NewState()
+	out := &strings.Builder{}
+	s.Out = out
+	s.LogOut = out
+	s.NoLog = true
+	o := Options{All: true, ShowEval: true, NoColor: true, Compact: true}
+	res := ""
+	for _, in := range inputs {
+		results := &strings.Builder{}
+		_, panicked, errs, _ := EvalOne(context.Background(), s, in, results, o)
+		if panicked || len(errs) > 0 {
+			res += fmt.Sprintf("[errors %v panic %v]", errs, panicked)
+		}
+	}
+	return out.String() + res
+}
+
 func TestVerifBoundedMacros(t *testing.T) {
 	templates := []c13Template{
 		{nil, "1 + 2"},
@@ -114,6 +134,15 @@ func TestVerifBoundedMacros(t *testing.T) {
 		{"in-expression", "println(1 + ", " * 2)\n"},
 		{"twice-same-shape", "println(", " , @S)\n"}, // @S: a second use whose arguments have the same outermost operators but different operands
 		{"thrice", "println(", " , @S, @@)\n"},
+		{"nested-in-macro-argument", "println(w(", "))\n"}, // w is a second macro (below); hand substitution: its template around the substituted call
+		{"nested-twice", "println(w(w(", ")))\n"},
+	}
+	wrapDef := "w = macro(z) { quote([unquote(z), 7]) }\n"
+	wrapSub := func(n int, inner string) string { // w(...) applied n times by hand
+		for i := 0; i < n; i++ {
+			inner = "([(" + inner + "), 7])"
+		}
+		return inner
 	}
 	// an argument of the same shape (same outermost token) with different operands
 	sameShape := map[string]string{"1": "2", "x": "x", "1 + 2": "3 + 4", "x - 1": "7 - x", "2 * 3": "x * 5", "f(2)": "g(7)", "x == 1 || x > 2": "x > 5 || x < 0", "-x": "-(x + 1)",
@@ -144,8 +173,14 @@ func TestVerifBoundedMacros(t *testing.T) {
 			call3 := "m(" + strings.Join(args3, ", ") + ")"
 			sub, sub2, sub3 := tpl.substitute(args), tpl.substitute(args2), tpl.substitute(args3)
 			for _, cx := range contexts {
-				withMacro := prelude + tpl.macroSrc("m") + cx.before + call + strings.ReplaceAll(strings.ReplaceAll(cx.after, "@@", call2), "@S", call3)
+				withMacro := prelude + tpl.macroSrc("m") + wrapDef + cx.before + call + strings.ReplaceAll(strings.ReplaceAll(cx.after, "@@", call2), "@S", call3)
 				byHand := prelude + cx.before + sub + strings.ReplaceAll(strings.ReplaceAll(cx.after, "@@", sub2), "@S", sub3)
+				switch cx.name {
+				case "nested-in-macro-argument":
+					byHand = prelude + "println(" + wrapSub(1, sub) + ")\n"
+				case "nested-twice":
+					byHand = prelude + "println(" + wrapSub(2, sub) + ")\n"
+				}
 				evals++
 				p1, o1, e1 := c13Expand(withMacro)
 				p2, o2, e2 := c13Plain(byHand)
@@ -185,9 +220,22 @@ func TestVerifBoundedMacros(t *testing.T) {
 			fail(fmt.Sprintf("the call m(x, 2) before and after 50 other uses should both expand to %q; expansion is %q (errors %v)", want, p, errs))
 		}
 	}
+	// several inputs of one session, through the REPL's own evaluation path: the macro is defined in one input and used
+	// in later ones (alone, nested, inside a function defined later)
+	{
+		tpl := templates[7] // $0 * $1 + $1
+		inputs := []string{prelude, tpl.macroSrc("m"), wrapDef, "println(m(x, 2))\n", "func h(n) { m(n, n + 1) }\n", "println(h(5))\n", "println(w(m(1 + 2, x)))\n", "x = x + 1\n", "println(m(x, x))\n"}
+		whole := prelude + "println(" + tpl.substitute([]string{"x", "2"}) + ")\nfunc h(n) { " + tpl.substitute([]string{"n", "n + 1"}) + " }\nprintln(h(5))\nprintln(" + wrapSub(1, tpl.substitute([]string{"1 + 2", "x"})) + ")\nx = x + 1\nprintln(" + tpl.substitute([]string{"x", "x"}) + ")\n"
+		evals++
+		got := c13Session(inputs)
+		want := c13Session([]string{whole})
+		if got != want {
+			fail(fmt.Sprintf("macro defined in one input and used in later inputs of the session prints %q, the hand-substituted script prints %q", got, want))
+		}
+	}
 	_ = context.Background
 	fmt.Printf("BOUNDED evaluations=%d distinct=%d exhaustive=false bound=%q\n", evals, evals,
-		fmt.Sprintf("%d templates (0..3 parameters, each used 0..3 times) x %d argument tuples from a pool of %d expressions (calls with side effects, looser-binding operators, error calls) x %d contexts (top level, function, loop, two and three uses incl. arguments of the same shape, operand position): ExpandMacros output printed, re-parsed and evaluated against the hand-substituted program", len(templates), len(argsPool), len(argsPool), len(contexts)))
+		fmt.Sprintf("%d templates (0..3 parameters, each used 0..3 times) x %d argument tuples from a pool of %d expressions (calls with side effects, looser-binding operators, error calls) x %d contexts (top level, function, loop, two and three uses incl. arguments of the same shape, operand position, inside the argument of another macro once and twice) and a 9-input session through repl.EvalOne: ExpandMacros output printed, re-parsed and evaluated against the hand-substituted program", len(templates), len(argsPool), len(argsPool), len(contexts)))
 	if fails > 0 {
 		t.Fatalf("%d failures", fails)
 	}
